@@ -6,6 +6,16 @@ pid = sys.argv[1]
 variant = sys.argv[2] if len(sys.argv) > 2 else "a"
 wt = f"/tmp/wt/{pid}{'' if variant=='a' else variant}"
 p = [json.loads(l) for l in open('/verif/properties.jsonl') if json.loads(l)['id'] == pid][0]
+import glob, os
+taken = []
+for mf in sorted(glob.glob(f'/verif/seeded/{pid}-*/meta.json')):
+    try:
+        taken.append(json.load(open(mf)).get('summary', '')[:400])
+    except Exception:
+        pass
+avoid = ""
+if taken:
+    avoid = "\nALREADY DONE BY OTHERS (choose a DIFFERENT function/mechanism and a different kind of mistake):\n" + "\n".join(" - " + t for t in taken) + "\n"
 print(f"""You are testing how well a semantic property of a Go codebase is protected. The codebase is the Züs/0chain blockchain node (miners and sharders, VRF-based round consensus, a Merkle Patricia state trie, storage/staking smart contracts). You have your own scratch git worktree of it at {wt} (Go module at {wt}/code/go/0chain.net). Work ONLY inside {wt} (and /tmp/out/{pid}{'' if variant=='a' else variant} for your deliverables). Never touch /repo or /verif, and do not read anything under /verif.
 
 THE PROPERTY ({pid}: {p['title']})
@@ -14,6 +24,7 @@ Quantified over: {p['quantifier']['text']}
 Files where the mechanism lives (relative to the worktree root): {', '.join(p['anchors']['files'])}
 Mechanisms meant to make it hold: {'; '.join(m.get('name','')+' ('+m.get('where','')+')' for m in p['anchors']['mechanism'])}
 
+{avoid}
 YOUR TASK
 Produce ONE realistic source change (a bug a tired maintainer could plausibly commit during a refactor, an optimisation or a feature tweak — not sabotage that is obvious at a glance) to the NON-TEST Go code in the worktree that BREAKS this property, such that:
  1. the module still compiles/type-checks, and the existing pinned test suite still passes (see MECHANICS);
